@@ -848,6 +848,12 @@ BOOKKEEPING = MEMBERS + ["__notes__"]          # the names of the two tuples in 
 NEAR_FIELDS = ["n", "s", "note", "notes", "t", "es", "e", "cause", "context", "ext", "back", "suppress"]
 
 
+def _attr_syntax_ok(nm):
+    """can be written as `o.<nm> += v`"""
+    import keyword
+    return nm.isidentifier() and not keyword.iskeyword(nm)
+
+
 def near_names(rng, k):
     """Names NEAR the bookkeeping names: substrings (a tuple that degenerates into a string makes `in` a substring
     test), superstrings, prefixes / suffixes, other spellings - never one of the four typed members themselves."""
@@ -882,7 +888,7 @@ def near_ops(rng, names, fields):
         ops.append(["del", f])
     for nm in names:
         kind = rng.choice(["del", "del", "set", "aug"])
-        if kind == "aug" and not nm.isidentifier():
+        if kind == "aug" and not _attr_syntax_ok(nm):
             kind = "del"
         ops.append([kind, nm] + ([["atok" if kind == "aug" else "tok", rng.randint(11, 19)]] if kind != "del" else []))
     return ops
@@ -962,7 +968,7 @@ def random_ops(rng, usable, is_frozen, is_exc, n):
                 ops.append(["set", nm, rng.choice([v, v, ["none"]]) if nm != "__suppress_context__" else v])
             continue
         nm = rng.choice(names)
-        if kind == "aug" and not nm.isidentifier():
+        if kind == "aug" and not _attr_syntax_ok(nm):
             kind = "del"
         ops.append([kind, nm] + ([["atok" if kind == "aug" else "tok", rng.randint(11, 19)]] if kind != "del" else []))
     return ops
